@@ -305,11 +305,39 @@ def _network_metrics(tier, seed):
     logging.disable(logging.CRITICAL)
     root = _repo()
     evals, distinct, failures, samples = 0, set(), [], []
-    nets = ["examples/networks/Net1.inp", "examples/networks/Net3.inp", "wntr/tests/networks_for_testing/Anytown_multipointcurves.inp"] + \
+    nets = ["examples/networks/Net1.inp", "examples/networks/Net3.inp", "wntr/tests/networks_for_testing/Anytown_multipointcurves.inp",
+            "variant:Net1_interpolated_patterns_half_hour_steps", "variant:Net1_report_step_coarser_than_hydraulic_step", "variant:two_reservoirs_one_filled"] + \
         (["examples/networks/Net2.inp"] if tier == "thorough" else [])      # Anytown_multipointcurves: a tank with a volume curve
+
+    def load(rel):
+        if rel == "variant:two_reservoirs_one_filled":
+            # a pumped source feeding through to a second, lower reservoir: that reservoir's demand is positive (it is being filled)
+            w = wntr.network.WaterNetworkModel()
+            w.add_reservoir("R1", base_head=20.0)
+            w.add_reservoir("R2", base_head=35.0)
+            for i, dmd in enumerate((0.01, 0.02, 0.015)):
+                w.add_junction("J%d" % i, base_demand=dmd, elevation=5.0)
+            w.add_curve("pc", "HEAD", [(0.0, 60.0), (0.1, 45.0), (0.2, 10.0)])
+            w.add_pump("PU", "R1", "J0", pump_type="HEAD", pump_parameter="pc")
+            w.add_pipe("P1", "J0", "J1", length=300, diameter=0.3, roughness=100)
+            w.add_pipe("P2", "J1", "J2", length=300, diameter=0.3, roughness=100)
+            w.add_pipe("P3", "J2", "R2", length=300, diameter=0.25, roughness=100)
+            w.options.time.duration = 2 * 3600
+            w.options.energy.global_efficiency = 75.0
+            w.options.energy.global_price = 3.0e-8
+            return w
+        w = wntr.network.WaterNetworkModel(os.path.join(root, "examples/networks/Net1.inp" if rel.startswith("variant:") else rel))
+        w.options.time.duration = 6 * 3600
+        if rel == "variant:Net1_interpolated_patterns_half_hour_steps":
+            w.options.time.pattern_interpolation = True
+            w.options.time.hydraulic_timestep = 1800
+            w.options.time.report_timestep = 1800
+        if rel == "variant:Net1_report_step_coarser_than_hydraulic_step":
+            w.options.time.hydraulic_timestep = 900
+            w.options.time.report_timestep = 3600
+        return w
     for rel in nets:
-        wn = wntr.network.WaterNetworkModel(os.path.join(root, rel))
-        wn.options.time.duration = 6 * 3600
+        wn = load(rel)
         for pstart in (0, 7200):
             wn.options.time.pattern_start = pstart
             wn.reset_initial_values()
